@@ -5,6 +5,7 @@ pub mod vmess;
 
 use std::fmt::Debug;
 use std::marker::PhantomData;
+use std::future::Future;
 use std::pin::Pin;
 use std::task::Context;
 use std::task::Poll;
@@ -174,18 +175,23 @@ where
     }
 }
 
+type Stopped = Pin<Box<dyn Future<Output = Result<Option<quinn::VarInt>, quinn::StoppedError>> + Send + Sync>>;
+
 pub struct QuicStream {
     send: quinn::SendStream,
     recv: quinn::RecvStream,
+    /// resolves once the peer has acknowledged everything written before the stream was finished
+    stopped: Option<Stopped>,
 }
 
 impl QuicStream {
     pub fn new(send: quinn::SendStream, recv: quinn::RecvStream) -> Self {
-        QuicStream { send, recv }
+        QuicStream { send, recv, stopped: None }
     }
 
     pub async fn close(mut self) -> Result<()> {
-        self.send.finish()?;
+        // the stream may have been finished by the relay already
+        let _ = self.send.finish();
         match self.send.stopped().await {
             Ok(_) => Ok(()),
             Err(e) => bail!(e),
@@ -209,6 +215,15 @@ impl AsyncWrite for QuicStream {
     }
 
     fn poll_shutdown(mut self: Pin<&mut Self>, cx: &mut Context<'_>) -> Poll<Result<(), std::io::Error>> {
-        AsyncWrite::poll_shutdown(Pin::new(&mut self.send), cx)
+        // finishing only queues the end of the stream: the connection is dropped as soon as the relay returns, and whatever
+        // the peer has not acknowledged by then is lost, so shutdown completes when everything written has been acknowledged
+        if self.stopped.is_none() {
+            let _ = self.send.finish();
+            self.stopped = Some(Box::pin(self.send.stopped()));
+        }
+        match self.stopped.as_mut().map(|f| f.as_mut().poll(cx)) {
+            Some(Poll::Pending) => Poll::Pending,
+            _ => Poll::Ready(Ok(())),
+        }
     }
 }
